@@ -73,13 +73,28 @@ var (
 	poisoned atomic.Bool
 )
 
-func watchdog() time.Duration {
-	if v := os.Getenv("C20_WATCHDOG"); v != "" {
-		if d, err := time.ParseDuration(v); err == nil {
-			return d
+// watchdog is the time after which a compare is suspected to hang: 30 s
+// for ordinary inputs (normal cost is about a millisecond). The one
+// example with a 10 000-line ACL needs 1-25 s and 0.8 GB per compare,
+// more when all shards work on it at the same time; inputs of that size
+// get ten times as long.
+func watchdog(files tool.Files) time.Duration { return watchdogFor(os.Getenv("C20_WATCHDOG"), files) }
+
+func watchdogFor(v string, files tool.Files) time.Duration {
+	d := 30 * time.Second
+	if v != "" {
+		if x, err := time.ParseDuration(v); err == nil {
+			d = x
 		}
 	}
-	return 30 * time.Second
+	n := 0
+	for _, v := range files {
+		n += len(v)
+	}
+	if n > 100000 {
+		d *= 10
+	}
+	return d
 }
 
 func isChild() bool { return os.Getenv("C20_CHILD") != "" }
@@ -88,7 +103,7 @@ func isChild() bool { return os.Getenv("C20_CHILD") != "" }
 func compareWatched(files tool.Files, dev, spoc string) (res tool.Result, hung bool) {
 	ch := make(chan tool.Result, 1)
 	go func() { ch <- tool.Compare(files, dev, spoc) }()
-	timer := time.NewTimer(watchdog())
+	timer := time.NewTimer(watchdog(files))
 	defer timer.Stop()
 	select {
 	case res = <-ch:
@@ -111,7 +126,7 @@ func oracleInProc(c *props.Case) props.Verdict {
 	if hung {
 		if isChild() {
 			return props.FailV("hang:"+c.Family,
-				"device.CompareFiles did not return within %v (fresh process)", watchdog())
+				"device.CompareFiles did not return within %v (fresh process)", watchdog(c.Files))
 		}
 		// Counted as a hang only if it repeats in a fresh process.
 		return viaChild(c, true)
@@ -254,20 +269,16 @@ func viaChild(c *props.Case, confirmHang bool) props.Verdict {
 	data, _ := json.Marshal(c)
 	file := filepath.Join(dir, "case.json")
 	os.WriteFile(file, data, 0644)
-	wd := watchdog()
-	if v := os.Getenv("C20_CHILD_WATCHDOG"); v != "" {
-		if d, err := time.ParseDuration(v); err == nil {
-			wd = d
-		}
-	} else if os.Getenv("C20_WATCHDOG") != "" {
-		wd = 30 * time.Second
-	}
+	// The child gets the default watchdog unless C20_CHILD_WATCHDOG says
+	// otherwise (a shortened C20_WATCHDOG of the parent is for self-tests).
+	childWD := os.Getenv("C20_CHILD_WATCHDOG")
+	wd := watchdogFor(childWD, c.Files)
 	ctx, cancel := context.WithTimeout(context.Background(), wd+60*time.Second)
 	defer cancel()
 	cmd := exec.CommandContext(ctx, os.Args[0], "-test.run", "^TestReplay$", "-test.v",
 		"-test.timeout", "0", "-replayfile", file)
 	cmd.Dir = dir
-	cmd.Env = append(os.Environ(), "C20_CHILD=1", "C20_WATCHDOG="+wd.String(), "VERIF_EVID_DIR=")
+	cmd.Env = append(os.Environ(), "C20_CHILD=1", "C20_WATCHDOG="+childWD, "VERIF_EVID_DIR=")
 	var out bytes.Buffer
 	cmd.Stdout, cmd.Stderr = &out, &out
 	cmd.WaitDelay = 5 * time.Second
